@@ -25,7 +25,7 @@ private theorem model_good (env : Env) (nm : Namer) (root : Stmt) (h : cleanS ro
 private theorem state_of_good {c : OpCall} (hg : Good c) :
     ∃ gs ts es, getterTuple c = some gs ∧ setterTargets c = some ts ∧ entriesOf gs = some es ∧
       ts.mapM exprQN = some (es.map (·.qn)) ∧ (es.map (·.qn)).Nodup ∧ es.length = c.names.length := by
-  obtain ⟨hl, ⟨gs, ts, hgs, hts, h3⟩, _, _, ⟨ts', qs, hts', hqs, hnd⟩, _⟩ := hg
+  obtain ⟨hl, ⟨gs, ts, hgs, hts, h3⟩, _, _, ⟨ts', qs, hts', hqs, hnd⟩, _, _⟩ := hg
   obtain ⟨es, he, hq⟩ := entries_of_all3 h3
   rw [hts] at hts'
   cases hts'
@@ -141,6 +141,14 @@ theorem C03_distinct (env : Env) (nm : Namer) (root : Stmt) (h : cleanS root = t
   obtain ⟨c, hc, hg, _⟩ := model_good env nm root h o ho
   exact ⟨c, hc, hg.2.2.2.2.1⟩
 
+/-- The setter assigns the variables of the enclosing function: every simple state variable is declared `global` /
+`nonlocal` in it. -/
+theorem C03_setter_declares (env : Env) (nm : Namer) (root : Stmt) (h : cleanS root = true) :
+    ∀ o ∈ emitted (cfOutput env nm root), ∃ c, o = some c ∧ SetterDeclares c := by
+  intro o ho
+  obtain ⟨c, hc, hg, _⟩ := model_good env nm root h o ho
+  exact ⟨c, hc, hg.2.2.2.2.2.2⟩
+
 /-- getter 0, setter 1, body 0 (`for_stmt`: 1), orelse / test / extra_test 0 parameters — plain positional
 parameters only; `extra_test` may be `None` only in a `for_stmt`. -/
 theorem C03_arity (env : Env) (nm : Namer) (root : Stmt) (h : cleanS root = true) :
@@ -192,8 +200,8 @@ theorem C03_get_pure (env : Env) (nm : Namer) (root : Stmt) (h : cleanS root = t
     ∀ o ∈ emitted (cfOutput env nm root), ∃ c, o = some c ∧ GetterPure c ∧ ∀ w : World, (runGetter c w).2 = w := by
   intro o ho
   obtain ⟨c, hc, hg, _⟩ := model_good env nm root h o ho
-  refine ⟨c, hc, hg.2.2.2.2.2, ?_⟩
-  obtain ⟨gs, hgs, hall⟩ := hg.2.2.2.2.2
+  refine ⟨c, hc, hg.2.2.2.2.2.1, ?_⟩
+  obtain ⟨gs, hgs, hall⟩ := hg.2.2.2.2.2.1
   intro w
   simp only [runGetter, hgs]
   exact evalGetter_pure gs w hall
@@ -320,9 +328,10 @@ example (σ : Store) :
 /-! ## The verified checker (run on the REAL final generated code) -/
 
 /-- `contractOk g = true` implies: every operator call of `g` is well formed and satisfies lengths, positions,
-arity, nouts bounds, distinctness and getter purity. -/
+arity, nouts bounds, distinctness, getter purity and the setter's declarations. -/
 theorem C03_contractOk_sound (g : ParsedOutput) (h : contractOk g = true) :
-    ∀ o ∈ emitted g, ∃ c, o = some c ∧ Lengths c ∧ Positions c ∧ Arity c ∧ Nouts c ∧ Distinct c ∧ GetterPure c :=
+    ∀ o ∈ emitted g, ∃ c, o = some c ∧ Lengths c ∧ Positions c ∧ Arity c ∧ Nouts c ∧ Distinct c ∧ GetterPure c ∧
+      SetterDeclares c :=
   contractOk_sound' h
 
 /-- For code accepted by the checker the getter/setter algebra holds as for the model's output. -/
@@ -336,7 +345,7 @@ theorem C03_contractOk_algebra (g : ParsedOutput) (h : contractOk g = true) :
   obtain ⟨c, hc, hg⟩ := contractOk_sound' h o ho
   obtain ⟨gs, ts, es, hgs, hts, he, hq, _, hlen⟩ := state_of_good hg
   refine ⟨c, es, hc, by simp [entries, hgs, he], ?_, ?_, ?_⟩
-  · obtain ⟨gs', hgs', hall⟩ := hg.2.2.2.2.2
+  · obtain ⟨gs', hgs', hall⟩ := hg.2.2.2.2.2.1
     intro w
     simp only [runGetter, hgs']
     exact evalGetter_pure gs' w hall
